@@ -813,6 +813,7 @@ pub fn arch(c: &OpCase) -> ZkStdLibArch {
     match family(c) {
         "ff" | "big" => crate::ops_ff::arch(c),
         "ec" => crate::ops_ecc::arch(c),
+        "h" => crate::ops_hash::arch(c),
         _ => ZkStdLibArch { nr_pow2range_cols: c.cols, ..ZkStdLibArch::default() },
     }
 }
@@ -822,6 +823,7 @@ pub fn body<L: Layouter<F>>(c: &OpCase, s: &ZkStdLib, l: &mut L, w: &[Value<F>],
     match family(c) {
         "ff" | "big" => crate::ops_ff::body(c, s, l, w, wb),
         "ec" => crate::ops_ecc::body(c, s, l, w, wb),
+        "h" => crate::ops_hash::body(c, s, l, w),
         _ => {
             for p in &native_body(c, s, l, w)? {
                 s.constrain_as_public_input(l, p)?;
@@ -854,6 +856,11 @@ pub fn judge(c: &OpCase, publics: &[Fq]) -> Judgement {
             Ok(false) => Judgement::Inadmissible,
             Err(e) => Judgement::Wrong(e),
         },
+        "h" => match crate::ops_hash::check(c, publics) {
+            Ok(true) => Judgement::Holds,
+            Ok(false) => Judgement::Inadmissible,
+            Err(e) => Judgement::Wrong(e),
+        },
         "ec" => match crate::ops_ecc::check(c, publics) {
             Ok(true) => Judgement::Holds,
             Ok(false) => Judgement::Inadmissible,
@@ -881,6 +888,7 @@ pub fn expected_admissible(c: &OpCase) -> bool {
     match family(c) {
         "ff" | "big" => crate::ops_ff::expected_admissible(c),
         "ec" => crate::ops_ecc::expected_admissible(c),
+        "h" => crate::ops_hash::expected_admissible(c),
         _ => {
             let ins: Vec<Fq> = c.ins.iter().map(|x| x.0).collect();
             native_eval(c, &ins).is_some()
@@ -899,11 +907,14 @@ pub fn all_ops() -> Vec<String> {
     v.extend(crate::ops_ff::big_ops());
     v.extend(crate::ops_ecc::jj_ops());
     v.extend(crate::ops_ecc::fc_ops());
+    v.extend(crate::ops_hash::hash_ops());
     v
 }
 
 pub fn gen_case(rng: &mut Prng, op: &str) -> OpCase {
-    if op.starts_with("ec.") {
+    if op.starts_with("h.") {
+        crate::ops_hash::gen_case(rng, op)
+    } else if op.starts_with("ec.") {
         crate::ops_ecc::gen_case(rng, op)
     } else if op.starts_with("ff.") || op.starts_with("big.") {
         crate::ops_ff::gen_case(rng, op)
